@@ -376,8 +376,15 @@ def accessor_branches(ctx: Ctx, rule: str, names):
     # -1 / islice idiom in both containers
     for nm in names:
         g = ctx.func(nm)
-        txt = ast.unparse(g.node)
-        ok = "islice_extended(self._molecules_ordered_all_gen(), index.start, index.stop, index.step)" in txt
+        from ..pat import find as _pf, single_defs as _sd
+        from .. import pat as _pat
+        from ..cfg import cguards_of as _cg
+        pm_ = parents_map(g.node)
+        GEN = "self._molecules_ordered_all_gen()"
+        sl_calls = _pf(g.node, "islice_extended(%s, index.start, index.stop, index.step)" % GEN)
+        sl_guard = ctext("isinstance(index, slice)")
+        ok_slice = bool(sl_calls) and sl_guard in _cg(sl_calls[0][0], pm_)
+
         def pick(src):
             want, wpol = ctext(src)
             for n_ in ast.walk(g.node):
@@ -386,11 +393,22 @@ def accessor_branches(ctx: Ctx, rule: str, names):
                     if ct == want:
                         return (n_, wt, wf) if wpol else (n_, wf, wt)
             return None
-        m1, sl, it_ = pick("index == -1"), pick("isinstance(index, slice)"), pick("isinstance(index, int)")
-        ok = ok and bool(m1) and "last(self._molecules_ordered_all_gen())" in ast.unparse(ast.Module(m1[1], [])) \
-            and "islice_extended(self._molecules_ordered_all_gen(), index, index + 1)" in ast.unparse(ast.Module(m1[2], []))
-        ok = bool(ok and sl and it_ and m1 and "index.start" in ast.unparse(ast.Module(sl[1], []))
-                  and any(x is m1[0] for x in ast.walk(ast.Module(it_[1], []))))
+        m1, it_ = pick("index == -1"), pick("isinstance(index, int)")
+
+        def has_in(stmts, pattern):
+            _pat._env.append(_sd(g.node))
+            try:
+                return any(_pf(s_, pattern) for s_ in stmts)
+            finally:
+                _pat._env.pop()
+        ok_m1 = bool(m1) and has_in(m1[1], "last(%s)" % GEN) and has_in(m1[2], "next(islice_extended(%s, index, index + 1))" % GEN)
+        int_branch = bool(it_ and m1 and any(x is m1[0] for x in ast.walk(ast.Module(it_[1], []))))
+        if not int_branch and m1:
+            # no explicit integer test around the -1 case: accepted when other index types are refused up front
+            int_branch = any(isinstance(n_, ast.If) and branch_raises(n_.body) and "TypeError" in ast.unparse(n_)
+                             and "isinstance(index" in norm(n_.test) for n_ in walk_no_nested(g.node)) \
+                and sl_guard[0] in [c_[0] for c_ in _cg(m1[0], pm_)] + [ctext("isinstance(index, slice)")[0]]
+        ok = ok_slice and ok_m1 and int_branch
         ctx.ob(rule, g, "%s: int / -1 / slice branches" % nm, ok,
                "integer indexing takes element [index, index+1) of the generator (the last one for -1, where that window "
                "would be empty) and slicing passes start/stop/step through", node=g.node)
